@@ -46,6 +46,8 @@ func main() {
 		famC07(g, o, *n, *thorough)
 	case "c09":
 		famC09(g, o, *n, *thorough)
+	case "c08":
+		famC08(g, o, *n, *thorough)
 	case "c04":
 		famC04(g, o, *n, *thorough)
 	case "c03":
